@@ -481,11 +481,20 @@ package common
 //@   trusted
 //@ func (s BeaconState) RandaoMixes() (r, err)
 //@   trusted
+//@   opt noalloc
+//@   ensures (err != nil) == st_mixes_err(s)
+//@   ensures err == nil ==> r == st_mixes(s) && r != nil
 //@ func (s BeaconState) LatestBlockHeader() (r, err)
 //@   trusted
 //@   ensures err == nil ==> r != nil
+//@ sort MixesI = RandaoMixes
+//@ ufun mix_err(MixesI, int) bool
+//@ ufun mix_at(MixesI, int) Root32
 //@ func (m RandaoMixes) GetRandomMix(epoch) (r, err)
 //@   trusted
+//@   opt noalloc
+//@   ensures (err != nil) == mix_err(m, epoch)
+//@   ensures err == nil ==> r == mix_at(m, epoch)
 
 // what the execution engine was asked and how often the payload header was stored (set by the forks' engine models, C18)
 //@ ghost n_eng_notify int
@@ -701,6 +710,39 @@ package common
 //@   loop 1
 //@     invariant len(shep.Shuffling) == len(shep.ActiveIndices) && len(shep.ActiveIndices) <= len(indicesBounded) && (forall k :: {shep.Shuffling[k]} 0 <= k && k <= rangeindex ==> shep.Shuffling[k] == shep.ActiveIndices[k])
 //@     invariant unchanged_active: len(shep.ActiveIndices) == act_count(indicesBounded, epoch, len(indicesBounded)) && (forall i :: {indicesBounded[i]} 0 <= i && i < len(indicesBounded) && is_active(indicesBounded[i], epoch) ==> shep.ActiveIndices[act_count(indicesBounded, epoch, i)] == indicesBounded[i].Index)
+
+
+// ---------------------------------------------------------------- seeds and the proposers of an epoch (C07)
+// get_seed(state, epoch, domain_type) = hash(domain_type ++ uint64_le(epoch) ++ randao_mix(epoch + EPOCHS_PER_HISTORICAL_VECTOR - MIN_SEED_LOOKAHEAD - 1))
+//@ sort DomTypeT = BLSDomainType
+//@ define seed_epoch(spec SpecP, epoch int) int = epoch + spec.EPOCHS_PER_HISTORICAL_VECTOR - spec.MIN_SEED_LOOKAHEAD - 1
+//@ define seed_of(spec SpecP, mixes MixesI, epoch int, dom DomTypeT) Root32 = sha256(cat(dom, le64(epoch), mix_at(mixes, seed_epoch(spec, epoch))))
+//@ func GetSeed(spec, mixes, epoch, domainType) (r, err)
+//@   property C07
+//@   nooverflow
+//@   requires spec != nil && mixes != nil && spec.MIN_SEED_LOOKAHEAD + 1 <= spec.EPOCHS_PER_HISTORICAL_VECTOR && epoch + spec.EPOCHS_PER_HISTORICAL_VECTOR < 18446744073709551616
+//@   ensures (err != nil) == mix_err(mixes, seed_epoch(spec, epoch))
+//@   ensures err == nil ==> r == seed_of(spec, mixes, epoch, domainType)
+
+// get_beacon_proposer_index for every slot of the epoch: seed_i = hash(get_seed(epoch, DOMAIN_BEACON_PROPOSER) ++ uint64_le(start_slot + i)),
+// proposer_i = compute_proposer_index(validators, active, seed_i) (first acceptable candidate, see ComputeProposerIndex)
+//@ define slot_seed(spec SpecP, mixes MixesI, epoch int, slot int) Root32 = sha256(cat(seed_of(spec, mixes, epoch, DOMAIN_BEACON_PROPOSER), le64(slot)))
+//@ ufun st_mixes_err(StateI) bool
+//@ ufun st_mixes(StateI) MixesI
+//@ func ComputeProposers(spec, state, epoch, active) (r, err)
+//@   property C07
+//@   nooverflow
+//@   requires spec != nil && state != nil && 0 < spec.SLOTS_PER_EPOCH && spec.SLOTS_PER_EPOCH <= 1024 && 0 < spec.TARGET_COMMITTEE_SIZE && len(active) <= 1099511627776
+//@   requires spec.MIN_SEED_LOOKAHEAD + 1 <= spec.EPOCHS_PER_HISTORICAL_VECTOR && epoch + spec.EPOCHS_PER_HISTORICAL_VECTOR < 18446744073709551616 && (epoch + 1) * spec.SLOTS_PER_EPOCH < 18446744073709551616
+//@   requires balances: spec.MAX_EFFECTIVE_BALANCE < 72057594037927936 && (forall v ValI :: {v_eb(v)} v_eb(v) < 72057594037927936)
+//@   ensures empty: len(active) == 0 ==> err != nil
+//@   ensures shape: err == nil ==> r != nil && r.Epoch == epoch && r.Spec == spec && len(r.Proposers) == spec.SLOTS_PER_EPOCH
+//@   ensures proposers: err == nil ==> (forall i :: {r.Proposers[i]} 0 <= i && i < spec.SLOTS_PER_EPOCH ==> (let sd := slot_seed(spec, st_mixes(state), epoch, epoch * spec.SLOTS_PER_EPOCH + i) in prop_scan(spec.MAX_EFFECTIVE_BALANCE, st_vals(state), spec.SHUFFLE_ROUND_COUNT % 256, active, sd, 0) >= 0 && r.Proposers[i] == prop_cand(spec.SHUFFLE_ROUND_COUNT % 256, active, sd, prop_scan(spec.MAX_EFFECTIVE_BALANCE, st_vals(state), spec.SHUFFLE_ROUND_COUNT % 256, active, sd, 0))))
+//@   loop 1
+//@     invariant i <= spec.SLOTS_PER_EPOCH && len(proposers) == spec.SLOTS_PER_EPOCH && startSlot == epoch * spec.SLOTS_PER_EPOCH && mixes == st_mixes(state) && vals == st_vals(state)
+//@     invariant forall b :: 0 <= b && b < 32 ==> buf[b] == epochSeed[b]
+//@     invariant epochSeed == seed_of(spec, st_mixes(state), epoch, DOMAIN_BEACON_PROPOSER)
+//@     invariant forall k :: {proposers[k]} 0 <= k && k < i ==> (let sd := slot_seed(spec, st_mixes(state), epoch, epoch * spec.SLOTS_PER_EPOCH + k) in prop_scan(spec.MAX_EFFECTIVE_BALANCE, st_vals(state), spec.SHUFFLE_ROUND_COUNT % 256, active, sd, 0) >= 0 && proposers[k] == prop_cand(spec.SHUFFLE_ROUND_COUNT % 256, active, sd, prop_scan(spec.MAX_EFFECTIVE_BALANCE, st_vals(state), spec.SHUFFLE_ROUND_COUNT % 256, active, sd, 0)))
 
 
 // BEGIN C18 generated (tools/gen_c18.py in /verif)
